@@ -696,6 +696,20 @@ func arithEdgeFails(c *core.Ctx, memo map[edge]map[string]bool, e edge) map[stri
 func runArith(c *core.Ctx, idx *int) {
 	memo := map[edge]map[string]bool{}
 	ar := []string{"+", "-", "*", "/"}
+	class := map[string]map[string]bool{} // as in nestRun: the class of pair fails for some operator pair
+	for _, p := range ar {
+		for _, ch := range ar {
+			for _, side := range []string{"L", "R"} {
+				e := edge{p, ch, side}
+				if class[classKey(e)] == nil {
+					class[classKey(e)] = map[string]bool{}
+				}
+				for f := range arithEdgeFails(c, memo, e) {
+					class[classKey(e)][f] = true
+				}
+			}
+		}
+	}
 	shapes := fullTrees(ar, c.Pick(2, 3))
 	for _, s := range shapes {
 		if s.depth() < 2 {
@@ -741,7 +755,7 @@ func runArith(c *core.Ctx, idx *int) {
 					// subsumed if one of its parent/child pairs already fails on its own
 					sub := false
 					for _, e := range es {
-						if d.covered(arithEdgeFails(c, memo, e)) {
+						if d.covered(arithEdgeFails(c, memo, e)) || d.covered(class[classKey(e)]) {
 							sub = true
 						}
 					}
